@@ -10,6 +10,7 @@ import (
 	"context"
 	"errors"
 	"fmt"
+	mhtml "github.com/tdewolff/minify/v2/html"
 	"io"
 	"net/http"
 	"net/http/httptest"
@@ -157,13 +158,35 @@ var errC14W = errors.New("c14 injected writer failure")
 // c14Registry: the six real minifiers plus a streaming one that copies its input through (it returns as soon
 // as the destination fails, without having consumed the rest of its input, unlike the built-in ones).
 func c14Registry() *minify.M {
-	m := newM(nil)
+	m := newM(&Opts{HTML: mhtml.Minifier{KeepSpecialComments: true}})
+	// history: the registry has seen failures before the cases run (documents whose embedded content does not
+	// minify, inputs that are cut off); nothing of that may linger in the shared minifier values
+	for _, p := range [][2]string{
+		{"text/html", "<!--[if lt IE 9]><script>var = ;</script><![endif]--><p>x</p>"},
+		{"text/html", "<p style=\"color:{\">x</p><script>function(</script>"},
+		{"text/html", "<svg><style>a{</style><path d=\"M0 0L\"/></svg>"},
+		{"text/css", "a{b:url("},
+		{"application/javascript", "var = ;"},
+		{"application/json", "{\"a\":"},
+		{"image/svg+xml", "<svg><style>a{b:</style>"},
+		{"text/xml", "<a><b"},
+	} {
+		func() {
+			defer func() { recover() }()
+			m.Minify(p[0], io.Discard, strings.NewReader(p[1]))
+			m.Minify(p[0], c14FailW{}, strings.NewReader(p[1]))
+		}()
+	}
 	m.AddFunc("text/x-copy", func(_ *minify.M, w io.Writer, r io.Reader, _ map[string]string) error {
 		_, err := io.Copy(w, r)
 		return err
 	})
 	return m
 }
+
+type c14FailW struct{}
+
+func (c14FailW) Write([]byte) (int, error) { return 0, errors.New("c14: history writer fails") }
 
 // the destination's error: a unique sentinel, or one of the errors the standard library itself produces
 func c14WriterErr(kind int) error {
